@@ -58,12 +58,17 @@ pub fn dispatch(id: &str, tier: Tier, seed: u64, replay: Option<&str>) -> i32 {
                 if text.contains("\"crash_accounting\"") {
                     return crashprops::replay_accounting(path);
                 }
+                if text.contains("\"fault_partition\"") {
+                    return c09::replay_healed_partition(path);
+                }
                 return seqprops::run(id, tier, seed, replay);
             }
             let code = seqprops::run(id, tier, seed, None);
             let (ucode, summary) = crashprops::partition_campaign(tier, seed);
             fold_into_evidence("C05", "partition_after_recovery", summary, "images", ucode);
-            code.max(ucode)
+            let (fcode, fsummary) = c09::healed_partition_campaign(tier, seed);
+            fold_into_evidence("C05", "partition_after_an_outage", fsummary, "plans", fcode);
+            code.max(ucode).max(fcode)
         }
         "C14" => {
             if let Some(path) = replay {
@@ -129,6 +134,9 @@ pub fn dispatch(id: &str, tier: Tier, seed: u64, replay: Option<&str>) -> i32 {
                 if text.contains("conc:C16D") {
                     return concprops::replay_sub("C16D", path);
                 }
+                if text.contains("conc:C16S") {
+                    return concprops::replay_sub("C16S", path);
+                }
                 return seqprops::run(id, tier, seed, replay);
             }
             if let Some(path) = replay {
@@ -137,7 +145,9 @@ pub fn dispatch(id: &str, tier: Tier, seed: u64, replay: Option<&str>) -> i32 {
             let code = seqprops::run(id, tier, seed, None);
             let (dcode, dev) = concprops::run_campaign("C16D", "C16", tier, seed);
             fold_into_evidence("C16", "concurrent_readers_cache_on", concprops::sub_summary(&dev), "executions", dcode);
-            let code = code.max(dcode);
+            let (scode, sev) = concprops::run_campaign("C16S", "C16", tier, seed);
+            fold_into_evidence("C16", "reader_finishing_after_an_overwrite", concprops::sub_summary(&sev), "executions", scode);
+            let code = code.max(dcode).max(scode);
             let (ucode, summary) = c16unit::campaign(tier, seed);
             // fold the unit campaign into the evidence written by the differential campaign
             let path = crate::env::verif_root().join("evidence/C16.json");
@@ -192,6 +202,93 @@ pub fn dispatch(id: &str, tier: Tier, seed: u64, replay: Option<&str>) -> i32 {
             let (code, summary) = c20k::campaign(tier, seed);
             println!("C20K-SUMMARY {}", serde_json::to_string(&summary).unwrap_or_default());
             code
+        }
+        "TRACE-CHECK" => {
+            // development entry: re-execute the workload of a crash replay and check the write-ahead
+            // rule on its trace: every retirement-marker write lies inside an extent listed by the
+            // newest ACTIVE journal write, and an fsync completed between that journal write and it
+            let path = replay.expect("--replay <file>");
+            let doc: serde_json::Value = serde_json::from_str(&std::fs::read_to_string(path).expect("read")).expect("json");
+            let case: crate::ops::Case = serde_json::from_value(doc["case"].clone()).expect("case");
+            let run = crate::crash::run_workload(&case);
+            crate::env::wait_reaper();
+            println!("trace: {} entries, usable {}", run.entries.len(), run.usable);
+            let mut journal: Option<(usize, u64, bool, Vec<(u64, u64)>)> = None; // (index, generation, active, extents)
+            let mut synced_since_journal = false;
+            let (mut markers, mut uncovered, mut unsynced, mut writes_no_journal) = (0u64, 0u64, 0u64, 0u64);
+            for (i, e) in run.entries.iter().enumerate() {
+                match e {
+                    crate::trace::Entry::Write { off, data, failed: false, .. } => {
+                        let b = off / 4096;
+                        if (1..7).contains(&b) {
+                            let slot = crate::layout::decode_slot(&data[..], u64::MAX / 8192);
+                            if let crate::layout::Slot::Valid { generation, active, extents, .. } = slot {
+                                journal = Some((i, generation, active, extents));
+                                synced_since_journal = false;
+                            }
+                        } else if b >= 16 && data.starts_with(b"\0DELETED") {
+                            markers += 1;
+                            let blocks = (data.len() / 4096) as u64;
+                            match &journal {
+                                Some((ji, g, true, ext)) => {
+                                    if !ext.iter().any(|(s, n)| *s <= b && b + blocks <= s + n) {
+                                        uncovered += 1;
+                                        if uncovered <= 5 {
+                                            println!("entry {i}: marker write {b}+{blocks} is not covered by the ACTIVE journal gen {g} written at entry {ji} ({} entries)", ext.len());
+                                        }
+                                    } else if !synced_since_journal {
+                                        unsynced += 1;
+                                        if unsynced <= 5 {
+                                            println!("entry {i}: marker write {b}+{blocks}: no fsync completed since its journal gen {g} was written at entry {ji}");
+                                        }
+                                    }
+                                }
+                                other => {
+                                    writes_no_journal += 1;
+                                    if writes_no_journal <= 5 {
+                                        println!("entry {i}: marker write {b}+{blocks} while the newest journal write is {:?}", other.as_ref().map(|(ji, g, a, e)| (*ji, *g, *a, e.len())));
+                                    }
+                                }
+                            }
+                        }
+                    }
+                    crate::trace::Entry::FsyncEnd { ok: true } => synced_since_journal = true,
+                    _ => {}
+                }
+            }
+            println!("marker writes {markers}; uncovered by the active journal {uncovered}; journal not yet synced {unsynced}; no active journal {writes_no_journal}");
+            0
+        }
+        "DECODE-REPLAY" => {
+            // development entry: decode the saved image of a crash replay with the independent codec
+            let path = replay.expect("--replay <file>");
+            let doc: serde_json::Value = serde_json::from_str(&std::fs::read_to_string(path).expect("read")).expect("json");
+            let img = miniz_oxide::inflate::decompress_to_vec(&crashprops::unhex(doc["image_deflate_hex"].as_str().unwrap_or(""))).expect("inflate");
+            println!("image: {} blocks", img.len() / 4096);
+            match crate::layout::decode_image(&img) {
+                Err(e) => println!("codec: undecodable: {e}"),
+                Ok(dec) => {
+                    println!("codec: meta v{} gen {}; {} live keys, {} records; journal {:?}", dec.meta.version, dec.meta.generation, dec.live.len(), dec.all_records.len(), crate::layout::journal_winner(&dec.slots).map(|(i, g, e)| (i, g, e.len(), e.iter().take(6).cloned().collect::<Vec<_>>())));
+                    for p in dec.problems.iter().take(20) {
+                        println!("codec problem: {p}");
+                    }
+                    println!("{} problems", dec.problems.len());
+                    println!("slots: {:?}", dec.slots.iter().map(|s| match s { crate::layout::Slot::Valid { generation, active, extents, .. } => format!("valid gen {generation} active {active} entries {} first {:?}", extents.len(), extents.iter().take(4).collect::<Vec<_>>()), other => format!("{other:?}") }).collect::<Vec<_>>());
+                    if let Ok(range) = std::env::var("FXV_DUMP_BLOCKS") {
+                        let mut it = range.split('-').map(|x| x.parse::<usize>().unwrap_or(0));
+                        let (a, b) = (it.next().unwrap_or(0), it.next().unwrap_or(0));
+                        for blk in a..=b {
+                            for sec in 0..8 {
+                                let off = blk * 4096 + sec * 512;
+                                let bytes = &img[off..off + 512];
+                                let kind = if bytes.iter().all(|x| *x == 0) { "zero".to_string() } else { format!("{:02x?}", &bytes[..20]) };
+                                println!("block {blk} sector {sec}: {kind}");
+                            }
+                        }
+                    }
+                }
+            }
+            0
         }
         "C04-MASS" => {
             // development entry: the mass-retirement stage of C04 alone (writes no evidence)
